@@ -1394,6 +1394,13 @@ M("SEED-C20-b", ["C20"], [("@patch", "seeded/C20-b/patch.diff", "")], ["C20/publ
 for _p in sorted(_glob.glob(_os.path.join(_os.path.dirname(_os.path.abspath(__file__)), "refactors", "rf3", "*.diff"))):
     RF("RF3-" + _os.path.basename(_p)[:-5], ALL19, [("@patch", "selftest/refactors/rf3/" + _os.path.basename(_p), "")])
 
+# defects seeded on top of a behaviour-preserving refactoring (combined patches): the generalised form of a rule has to
+# catch, in the refactored shape of the code, what its original form caught in the pinned shape
+M("RFM-unrolled-fresh-first", ["C01"], [("@patch", "selftest/mutants_rf/unrolled-fresh-first.diff", "")],
+  ["C01/priority/in-progress-first"])
+M("RFM-unrolled-control-queue-first", ["C01"], [("@patch", "selftest/mutants_rf/unrolled-control-queue-first.diff", "")],
+  ["C01/priority/in-progress-first"])
+
 # fourth round: organisational refactorings (guard clauses, sub-borrows, loop forms, private structs, generic helpers)
 for _p in sorted(_glob.glob(_os.path.join(_os.path.dirname(_os.path.abspath(__file__)), "refactors", "rf4", "*.diff"))):
     RF("RF4-" + _os.path.basename(_p)[:-5], ALL19, [("@patch", "selftest/refactors/rf4/" + _os.path.basename(_p), "")])
@@ -1408,4 +1415,7 @@ KNOWN_LIMITS = {
     "RF3-C08-01-packet-reader-combinators": ("the fixed-header probe's arithmetic is rewritten as iterator folds; its overflow sites need a numeric range analysis "
                                              "through take(4).enumerate()", ["C08/panic/", "C08/varint/reader-probe"]),
     "RF3-C14-03-packet-reader-control-flow": ("as above (position + fold in the fixed-header probe)", ["C08/panic/", "C08/varint/reader-probe"]),
+    "RF4-C12-03-packet-reader-combinators": ("as above (sub-slices bounded by `len().min(4)` and by the index `position` returned, folded with enumerate)",
+                                             ["C08/panic/", "C08/varint/reader-probe"]),
+    "RF4-C13-04-packet-reader-combinators": ("as above (position + fold over take(4) in the fixed-header probe)", ["C08/panic/", "C08/varint/reader-probe"]),
 }
